@@ -700,6 +700,14 @@ impl<'tcx> Dumper<'tcx> {
             }
             _ => {
                 let _ = write!(s, ",\"ty\":{}", js(&self.ty_str(ty)));
+                if let Some(rustc_middle::mir::interpret::Scalar::Ptr(ptr, _)) = c.try_to_scalar() {
+                    if let rustc_middle::mir::interpret::GlobalAlloc::Static(sd) =
+                        tcx.global_alloc(ptr.provenance.alloc_id())
+                    {
+                        let sp = self.def_str(sd);
+                        let _ = write!(s, ",\"static\":{}", js(&sp));
+                    }
+                }
                 if let Const::Unevaluated(u, _) = c {
                     let p = self.def_str(u.def);
                     let _ = write!(s, ",\"def\":{}", js(&p));
@@ -924,9 +932,7 @@ impl<'tcx> Dumper<'tcx> {
             if i > 0 {
                 s.push(',');
             }
-            if i <= body.arg_count {
-                self.enqueue_ty(*t);
-            }
+            self.enqueue_ty(*t);
             jstr(&self.ty_str(*t), &mut s);
         }
         s.push(']');
